@@ -8,6 +8,8 @@ package remote
 // selector over the remote series runs with lookback 0, offset 0, one shard, on the query's grid (C10).
 //@ func NewExecution
 //@   requires opts != nil
+// The options are shared by every operator of the plan: they are read, never written.
+//@   assigns[C01,C10] nothing
 //@   ensures result != nil && fresh(result)
 //@   at scan.NewVectorSelector assert[C10] identity-reread: $offset == 0 && $shard == 0 && $numShards == 1 &&
 //@       $queryOpts.LookbackDelta == 0 && $queryOpts.Start == opts.Start && $queryOpts.End == opts.End &&
